@@ -59,7 +59,7 @@ func runC08(h *Harness) {
 	// in half of the runs, tasks that have just given up a lock are held back at a seeded subset of such sites
 	h.S.pDelayDen, h.S.delayFor = Pick(tp, 0, 0, 5, 10), Pick(tp, 2*time.Second, 20*time.Second)
 	h.S.pHoldDen, h.S.holdFor = Pick(tp, 0, 0, 0, 6), Pick(tp, 2*time.Second, 10*time.Second) // tasks held back while they hold a lock
-	h.S.stallSteps = Pick(tp, 0, 30, 300) // half of the window delays counted in other tasks' steps
+	h.S.stallSteps = Pick(tp, 0, 30, 300)                                                     // half of the window delays counted in other tasks' steps
 	sc["backend"], sc["trigger"], sc["pem"], sc["extra"], sc["width"], sc["rounds"], sc["readers"], sc["pre"], sc["smallwb"] = backend, trigger, pem, extra, width, rounds, readers, pre, smallWB
 	if faulty {
 		h.R.Config = "faulty"
